@@ -4,6 +4,7 @@ import NutsModel.C02.History
 import NutsModel.C02.Jar
 import NutsModel.C02.Policy
 import NutsModel.C02.ReqObj
+import NutsModel.C02.DPoP
 import NutsModel.Facts.C02
 open Lean Nuts.Drv Nuts.C02 Nuts
 
@@ -61,6 +62,8 @@ structure St where
   sha : List (String × String) := []
   /-- the request-object store (`authzRequestObjectStore`): one entry per OpenID4VP leg -/
   ro : Store JarReq := []
+  /-- the `nonceonce` store of ValidateDPoPProof (jti of every accepted proof) -/
+  jti : Store Unit := []
 
 /-- `subjectManager.ListDIDs(subject)[0]` of the harness world -/
 def signerOf (subject : String) : String := "did:web:as.example:iam:" ++ subject
@@ -261,6 +264,24 @@ def step (st : St) (j : Json) : St × List String :=
       | .err e => "err:" ++ e
       | .panic p => "panic:" ++ p
     ({ st with ro := ro' }, [out])
+  | "dpopval" =>
+    -- dpop.go ValidateDPoPProof: what dpop.Parse read is data; the jti store is the model's
+    let d := jObj j "dpv"
+    let ath : AthClaim := match jStr d "p_ath" with
+      | "absent" => .absent
+      | "str" => .str (jStr d "p_ath_v")
+      | _ => .other
+    let proof : Option DPoPProof :=
+      if jBool d "parsed" then some ⟨jStr d "p_jkt", jStr d "htm", optStr d "p_htu", ath, jStr d "jti"⟩ else none
+    let c : DPoPCheck := { proof := proof, thumbprint := jStr d "thumb", method := jStr d "method", url := optStr d "s_url",
+                           token := jStr d "token" }
+    let (jti', res) := validateDPoP (fun tk => "ath:" ++ tk) st.cfg.tokenValidity t st.jti c
+    let out := match res with
+      | .ok .valid => "valid"
+      | .ok (.invalid r) => "invalid:" ++ r
+      | .err e => "err:" ++ e
+      | .panic p => "panic:" ++ p
+    ({ st with jti := jti' }, [out])
   | "polload" =>
     -- policy/local.go: Configure on a generated directory, then PresentationDefinitions for the probe scopes
     let entries : List DirEntry := (jArr j "entries").map fun e =>
